@@ -11,7 +11,7 @@ import (
 func init() {
 	register(&propDef{
 		ID: "C03", Level: "other", Run: runC03,
-		Explanation: "Decides that the constant tables the hand score is built from are well-formed (necessary for any total order to come out right): every ranking table shipped in package combination is a permutation of all declared categories; the standard and short-deck tables are the poker order of the property; each category's score span (CombinationLevel) exceeds the largest in-category score the scoring code can produce, computed from the radix and calibration constants found in CalculatePowerScore and the rank table; the symbol table is total, injective and not cross-wired; the multiples ladder in CalculatePower tests the stronger pattern first. Does NOT decide category detection or kicker weighting on the 2.6M hands (values).",
+		Explanation: "Decides that the constant tables the hand score is built from are well-formed (necessary for any total order to come out right): every ranking table shipped in package combination is a permutation of all declared categories; the standard and short-deck tables are the poker order of the property; each category's score span (CombinationLevel) exceeds the largest in-category score the scoring code can produce, computed from the radix and calibration constants found in CalculatePowerScore and the rank table; the symbol table is total, injective and not cross-wired; the multiples ladder in CalculatePower tests the stronger pattern first. Every pattern detector scans its whole input, and the slice sorted by descending rank is, unchanged, what detectors, grouping and result see. Does NOT decide category detection or kicker weighting on the 2.6M hands (values).",
 		Trusted:     commonTrusted,
 		Assumptions: []string{"category constants and the two exported ranking tables are API and resolved by name", "five-card hands: at most 5 distinct ranks"},
 		NotCovered:  "correctness of the order on all five-card hands and of category detection (wheel, flush); equality exactly on ties",
@@ -244,6 +244,305 @@ func runC03(c *Ctx) {
 
 	runC03Ladder(c)
 	runC03Detectors(c)
+	runC03SortedInput(c)
+	runC03Elements(c)
+	runC03TablesReadOnly(c)
+	runC03AceLow(c)
+}
+
+// runC03AceLow: in the straight detector the ace may stand in for a low card in the five-high
+// straight only. The detector singles out "first card is the ace" (rank 14); whatever other rank it
+// tests for equality on those paths must be one of the wheel's ranks 2..5. A second low-ace
+// pattern (A-6-7-8-9, say) makes five cards that are not a straight in the 52-card game one.
+func runC03AceLow(c *Ctx) {
+	p := c.P
+	const rule = "ace-low-only-in-wheel"
+	n := 0
+	for _, fn := range p.Funcs {
+		if fn.Pkg == nil || shortPkg(fn.Pkg.Pkg.Path()) != "combination" || fn.Parent() != nil || fn.Blocks == nil {
+			continue
+		}
+		sig := fn.Signature
+		if sig.Results().Len() != 1 || !isBoolType(sig.Results().At(0).Type()) || sig.Params().Len() != 1 || typeShort(sig.Params().At(0).Type()) != "[]*combination.Card" {
+			continue
+		}
+		s := newSumm(p, 0)
+		s.EngineAliases = false
+		s.HelperInline = purePredicate(p, fn)
+		paths, _ := s.Function(fn)
+		aceFirst := func(ps *PathSum) bool {
+			return hasCond(ps, func(v *Val) bool {
+				return v.K == KAtom && v.At.Op == "eq" && !v.Neg && v.At.A.C == -14 && len(v.At.A.T) == 1 && strings.HasSuffix(v.At.A.terms()[0], ".Rank")
+			})
+		}
+		uses := false
+		var bad []string
+		for _, ps := range paths {
+			if !aceFirst(ps) {
+				continue
+			}
+			uses = true
+			for _, cd := range ps.Conds {
+				v := cd.V
+				if v.K != KAtom || v.At.Op != "eq" || v.Neg || len(v.At.A.T) != 1 || !strings.HasSuffix(v.At.A.terms()[0], ".Rank") {
+					continue
+				}
+				k := -v.At.A.C
+				if v.At.A.T[v.At.A.terms()[0]] != 1 || k == 14 {
+					continue
+				}
+				if k < 2 || k > 5 {
+					bad = append(bad, fmt.Sprintf("with the ace first, a card of rank %d is accepted as the start of a low straight", k))
+				}
+			}
+		}
+		if !uses {
+			continue
+		}
+		n++
+		c.touch(fnKey(fn))
+		c.check(len(bad) == 0, rule, fnKey(fn), p.FnPos(fn), "the ace plays low next to ranks 2..5 only", "the ace plays low outside the five-high straight", uniq(bad, 2)...)
+	}
+	c.floor(rule, "detectors that single out the ace", n, 1)
+}
+
+// runC03TablesReadOnly: the ranking tables are shared constants (the options hand the package-level
+// slices to every game): no element of a slice of categories is ever overwritten, anywhere in the
+// module. One game "fixing" its table changes the category order of every other game.
+func runC03TablesReadOnly(c *Ctx) {
+	p := c.P
+	var bad []string
+	n := 0
+	for _, fn := range p.Funcs {
+		if fn.Synthetic != "" && fn.Name() == "init" {
+			continue // package initialisers build the tables
+		}
+		for _, b := range fn.Blocks {
+			for _, in := range b.Instrs {
+				st, ok := in.(*ssa.Store)
+				if !ok {
+					continue
+				}
+				ia, ok := st.Addr.(*ssa.IndexAddr)
+				if !ok {
+					continue
+				}
+				var elem types.Type
+				switch t := ia.X.Type().Underlying().(type) {
+				case *types.Slice:
+					elem = t.Elem()
+				case *types.Pointer:
+					if a, ok := t.Elem().Underlying().(*types.Array); ok {
+						elem = a.Elem()
+					}
+				}
+				if elem == nil || typeShort(elem) != "combination.Combination" {
+					continue
+				}
+				n++
+				if _, fresh := rootOf(ia.X); fresh {
+					continue // filling a slice allocated in this very function
+				}
+				bad = append(bad, fnKey(fn)+" overwrites an element of a ranking table at "+p.InstrPos(in))
+			}
+		}
+	}
+	c.Sites += n
+	c.check(len(bad) == 0, "tables-read-only", "combination.Combination slices", "-", "no element of a ranking table is overwritten after its construction", "a shared ranking table can be changed at run time", uniq(bad, 3)...)
+}
+
+// runC03Elements: the score weights the rank groups by position, so the grouping function must
+// return them ordered by group size, largest first, and must never put a lower rank ahead of a
+// higher one among groups of equal size (the cards arrive in descending rank order, see
+// sorted-input). Decided on the comparison the library sort is given: for every pair of groups
+// (size 1..4, rank 2..14) less(i,j) is true when i is larger, false when it is smaller, and among
+// equal sizes at most "rank i > rank j".
+func runC03Elements(c *Ctx) {
+	p := c.P
+	const rule = "elements-ordered"
+	cp := p.Func("combination", "", "CalculatePower")
+	if cp == nil {
+		c.undecided(rule, "combination.CalculatePower", "-", "function not found")
+		return
+	}
+	var grp *ssa.Function
+	for _, cc := range p.Index().Info[cp].Calls {
+		if f := cc.StaticCallee(); f != nil && f.Pkg == cp.Pkg && f.Signature.Results().Len() == 1 && typeShort(f.Signature.Results().At(0).Type()) == "[]*combination.Element" {
+			grp = f
+		}
+	}
+	if grp == nil {
+		c.undecided(rule, "grouping", "-", "the function that groups the cards by rank was not resolved")
+		return
+	}
+	c.touch(fnKey(grp))
+	var closure *ssa.Function
+	for _, b := range grp.Blocks {
+		for _, in := range b.Instrs {
+			if call, ok := in.(*ssa.Call); ok {
+				if n := extCalleeName(call.Common()); (n == "sort.Slice" || n == "sort.SliceStable") && len(call.Call.Args) == 2 {
+					if mc, ok := call.Call.Args[1].(*ssa.MakeClosure); ok {
+						closure, _ = mc.Fn.(*ssa.Function)
+					}
+				}
+			}
+		}
+	}
+	if closure == nil {
+		c.undecided(rule, fnKey(grp), p.FnPos(grp), "the groups are not ordered by a library sort with a comparison closure: the order they are returned in cannot be decided")
+		return
+	}
+	s := newSumm(p, 1)
+	s.EngineAliases = false
+	paths, cut := s.Function(closure)
+	if cut != "" || len(paths) == 0 {
+		c.undecided(rule, fnKey(grp), p.FnPos(grp), "the comparison closure is not a decision table: "+cut)
+		return
+	}
+	// the four quantities: Count and Rank of element i and of element j
+	pi, pj := "[param:"+closure.Params[0].Name()+"]", "[param:"+closure.Params[1].Name()+"]"
+	role := func(t string) string {
+		switch {
+		case strings.HasSuffix(t, pi+".Count"):
+			return "ci"
+		case strings.HasSuffix(t, pj+".Count"):
+			return "cj"
+		case strings.HasSuffix(t, pi+".Rank"):
+			return "ri"
+		case strings.HasSuffix(t, pj+".Rank"):
+			return "rj"
+		}
+		return ""
+	}
+	terms := map[string]bool{}
+	collect := func(v *Val) {
+		if v != nil && v.K == KAtom && v.At.A != nil {
+			for t := range v.At.A.T {
+				terms[t] = true
+			}
+		}
+	}
+	for _, ps := range paths {
+		for _, cd := range ps.Conds {
+			collect(cd.V)
+		}
+		if len(ps.Ret) == 1 {
+			collect(ps.Ret[0])
+		}
+	}
+	var bad []string
+	names := map[string]string{}
+	for t := range terms {
+		r := role(t)
+		if r == "" {
+			bad = append(bad, "the comparison depends on "+t+", which is neither a group's size nor its rank")
+		}
+		names[r] = t
+	}
+	if names["ci"] == "" || names["cj"] == "" {
+		bad = append(bad, "the comparison does not look at the sizes of both groups")
+	}
+	cells := 0
+	if len(bad) == 0 {
+		for ci := int64(1); ci <= 4 && len(bad) < 3; ci++ {
+			for cj := int64(1); cj <= 4 && len(bad) < 3; cj++ {
+				for ri := int64(2); ri <= 14 && len(bad) < 3; ri++ {
+					for rj := int64(2); rj <= 14; rj++ {
+						a := Asg{I: map[string]int64{}, B: map[string]bool{}}
+						for r, v := range map[string]int64{"ci": ci, "cj": cj, "ri": ri, "rj": rj} {
+							if names[r] != "" {
+								a.I[names[r]] = v
+							}
+						}
+						row, err := selectPath(paths, a)
+						if err != "" || row == nil || len(row.Ret) != 1 {
+							bad = append(bad, "the comparison is not decided for sizes "+fmt.Sprint(ci, cj)+" ranks "+fmt.Sprint(ri, rj)+": "+err)
+							break
+						}
+						less, ok := evalCond(row.Ret[0], a)
+						if !ok {
+							bad = append(bad, "the comparison's result "+row.Ret[0].String()+" is not a comparison of sizes and ranks")
+							break
+						}
+						cells++
+						switch {
+						case ci > cj && !less:
+							bad = append(bad, fmt.Sprintf("a group of %d (rank %d) is not put before a group of %d (rank %d)", ci, ri, cj, rj))
+						case ci < cj && less:
+							bad = append(bad, fmt.Sprintf("a group of %d (rank %d) is put before a group of %d (rank %d)", ci, ri, cj, rj))
+						case ci == cj && less && ri <= rj:
+							bad = append(bad, fmt.Sprintf("among groups of %d, rank %d is put before rank %d", ci, ri, rj))
+						}
+						if len(bad) >= 3 {
+							break
+						}
+					}
+				}
+			}
+		}
+	}
+	c.Sites += cells
+	c.check(len(bad) == 0 && cells > 0, rule, fnKey(grp), p.FnPos(grp), fmt.Sprintf("groups ordered by size descending, never a lower rank ahead of a higher one among equals (%d cells)", cells), "the rank groups are returned in an order the positional score does not expect", uniq(bad, 3)...)
+}
+
+// runC03SortedInput: the detectors and the rank grouping assume cards in descending rank order
+// (the wheel test looks at positions 0 and 1, the straight walk at neighbours, kickers are
+// weighted by position). So in the evaluator the slice that was sorted is, unchanged, the one
+// handed to every detector and to the grouping and stored as the hand's cards: nothing
+// re-orders it between the sort and its uses.
+func runC03SortedInput(c *Ctx) {
+	p := c.P
+	const rule = "sorted-input"
+	fn := p.Func("combination", "", "CalculatePower")
+	if fn == nil {
+		c.undecided(rule, "combination.CalculatePower", "-", "function not found")
+		return
+	}
+	s := newSumm(p, 0)
+	s.EngineAliases = false
+	s.HelperInline = func(f *ssa.Function) bool {
+		return privateHelper(fn, f) && len(findLoops(f)) == 0 && f.Signature.Results().Len() == 1 && !isBoolType(f.Signature.Results().At(0).Type())
+	}
+	paths, cut := s.Function(fn)
+	if cut != "" {
+		c.undecided(rule, fnKey(fn), p.FnPos(fn), "summary cut: "+cut)
+		return
+	}
+	var bad []string
+	n := 0
+	cl, _ := sortClosure(fn)
+	if o := sortOrientation(p, cl, "Rank"); o != "desc" {
+		bad = append(bad, "the cards are not sorted by descending rank (orientation "+fmt.Sprintf("%q", o)+")")
+	}
+	for _, ps := range paths {
+		if ps.End != "return" {
+			continue
+		}
+		sorted := ""
+		for _, e := range ps.Events {
+			if e.Kind == "call" && e.Callee == "sort.Slice" && len(e.Args) > 0 {
+				sorted = e.Args[0].String()
+			}
+		}
+		if sorted == "" {
+			bad = append(bad, "a path evaluates a hand without sorting it")
+			continue
+		}
+		n++
+		for _, e := range ps.Events {
+			switch {
+			case e.Kind == "store" && e.FKey == "combination.PowerState.Cards":
+				if e.Val.String() != sorted {
+					bad = append(bad, "the hand's cards are stored as "+e.Val.String()+", not as the sorted slice")
+				}
+			case e.Kind == "call" && e.Fn != nil && e.Fn.Pkg == fn.Pkg && len(e.Args) == 1 && typeShort(e.Fn.Signature.Params().At(0).Type()) == "[]*combination.Card":
+				if e.Args[0].String() != sorted {
+					bad = append(bad, e.Fn.Name()+" is given "+e.Args[0].String()+", not the sorted slice")
+				}
+			}
+		}
+	}
+	c.check(len(bad) == 0 && n > 0, rule, fnKey(fn), p.FnPos(fn), "the descending-rank sorted slice is what every detector, the grouping and the result see", "the evaluated cards are re-ordered after sorting", uniq(bad, 3)...)
 }
 
 // runC03Detectors: every pattern detector of the evaluator (a function of package combination
